@@ -36,6 +36,10 @@ def run(ctx: Ctx) -> None:
     terminal_callers_rule(ctx, "R-C14-REDELIVER", ops=("reject", "requeue"))
     race(ctx, "R-C14-REDELIVER")
     maintenance(ctx, "R-C14-REDELIVER")
+    from .C03 import finish
+
+    with ctx.as_rule("R-C14-REDELIVER"):
+        finish(ctx, "R-C14-REDELIVER")  # finish() returns exactly the messages this consumer prefetched, one by one by their own tags
     from .brokers import rabbit_bounce_rules
 
     rabbit_bounce_rules(ctx, "R-C14-TAKE")
